@@ -134,6 +134,11 @@ def corpus(kind, spec, canary, dtd_path, port, rng):
             b = re.sub(r'<(tns:\w+)>', lambda m: '<%s %s>' % (m.group(1), attrs), body.replace('@@T0@@', 'x'), count=1)
             docs.append({'template': 'attr-flood-%d' % n, 'method': meth, 'pos': 'attr-root', 'doc': b, 'bomb': False,
                          'forbidden_text': []})
+            # the same flood on an argument element (a child of the message element)
+            b2 = re.sub(r'<(tns:\w+)>(x|7)<', lambda m: '<%s %s>%s<' % (m.group(1), attrs, m.group(2)), body.replace('@@T0@@', 'x'), count=1)
+            if b2 != body.replace('@@T0@@', 'x'):
+                docs.append({'template': 'attr-flood-child-%d' % n, 'method': meth, 'pos': 'attr', 'doc': b2, 'bomb': False,
+                             'forbidden_text': []})
     # benign controls: the monitors must see a normal call
     for meth, body in valid_requests(kind):
         docs.append({'template': 'control-valid', 'method': meth, 'pos': 'text', 'doc': body.replace('@@T0@@', '5'), 'bomb': False,
